@@ -1160,7 +1160,7 @@ func genHist(t *rapid.T) Hist {
 
 func TestHistory(t *testing.T) {
 	pbt.Run(t, pbt.Sub[Hist]{
-		Name: "history", Quick: 60000, Thorough: 900000,
+		Name: "history", Quick: 60000, Thorough: 600000,
 		Gen:   genHist,
 		Check: checkHist,
 	})
